@@ -661,7 +661,12 @@ class TypeTransformer:
             return t(data)  # noqa
         if not self.no_data_loss:
             if data in t.__members__:  # noqa
-                return t.__members__[data]  # noqa
+                # the value of one member can be the name of another: the value wins (as it does
+                # in the strict modes), so that a member's value always converts back to that member
+                try:
+                    return t(data)  # noqa
+                except ValueError:
+                    return t.__members__[data]  # noqa
         member_type = getattr(t, "_member_type_", None)
         if member_type and member_type != object:
             if type(data) != member_type:
